@@ -112,8 +112,23 @@ func (o *oracles) unitsOf(level string) []cset {
 	return out
 }
 
-func (o *oracles) checkC02(rep reporter) {
+func (o *oracles) checkC02(rep0 reporter) {
 	w := o.w
+	// one cause label per signature (balloons): a configuration update was
+	// rejected and reverted by rebuilding all balloons (F22), or an accepted
+	// reconfiguration rebuilt them (F15/F23)
+	rep := func(clause, sig string, format string, a ...any) {
+		has := strings.Contains(sig, "after-") || strings.Contains(sig, "capped-by") || strings.Contains(sig, "no-idle")
+		if !has {
+			switch {
+			case w.rejectedReconf:
+				sig += " after-rejected-reconfigure"
+			case w.reconfiguredInc:
+				sig += " after-reconfiguration"
+			}
+		}
+		rep0(clause, sig, format, a...)
+	}
 	sn := o.balSnap()
 	if sn == nil {
 		return
